@@ -58,7 +58,15 @@ ConnectFail(c) == /\ c \in Better /\ tip \in Anc(c)
                   /\ failed' = failed \cup {x \in known : NextToward(c) \in Anc(x)}
                   /\ UNCHANGED <<parent, known, data, valid, tip>>
 
+\* `invalidateblock b` on a block of the active chain: the chain is rewound to b's parent and b is flagged; whether the flag has
+\* reached b's descendants on disk depends on the release and on when the index was flushed (any subset of them)
+Invalidate(b, F) == /\ b \in Anc(tip) /\ b # 0 /\ Better = {}
+                    /\ F \subseteq {x \in known : b \in Anc(x) /\ x # b}
+                    /\ failed' = failed \cup {b} \cup F /\ tip' = parent[b]
+                    /\ UNCHANGED <<parent, known, data, valid>>
+
 Next == \/ \E b \in Blk, p \in Blk : AcceptHeader(b, p)
+        \/ \E b \in Blk : \E F \in SUBSET Blk : Invalidate(b, F)
         \/ \E b \in Blk : AcceptBlock(b) \/ Prune(b)
         \/ \E c \in Blk : DisconnectToFork(c) \/ ConnectOk(c) \/ ConnectFail(c)
 Spec == Init /\ [][Next]_vars
@@ -72,7 +80,7 @@ ActiveChain == [h \in 0..Height(tip) |-> CHOOSE b \in Anc(tip) : Height(b) = h]
 \* Environment assumptions under which "the active chain" is determined by the index alone:
 \* the node is not in the middle of an activation, and no second fully validated block ties with the tip
 Quiescent == Better = {}
-Validated == {b \in data \ failed : valid[b] = 5}
+Validated == {b \in data \ failed : valid[b] = 5 /\ Anc(b) \cap failed = {}}      \* (descendants of a failed block do not compete)
 UniqueBestTip == \A b \in Validated : b # tip => Height(b) < Height(tip)
 Judged == Quiescent /\ UniqueBestTip
 
